@@ -430,10 +430,6 @@ Section Links.
   Qed.
 
   (** operation histories whose chess inputs come from [succ] *)
-  Inductive history_wf : book -> list op -> Prop :=
-  | hw_nil : forall g, history_wf g []
-  | hw_cons : forall rq bd g o t, op_wf g o -> history_wf (apply_op rq bd g o) t -> history_wf g (o :: t).
-
   Fixpoint ops_wf (rq : bool) (bd : bdata) (g : book) (ops : list op) : Prop :=
     match ops with
     | [] => True
